@@ -2,39 +2,7 @@
 AtomicPosition::allow (src/state.rs) against the token-bucket law of the property statement,
 plus the window / staleness lemmas over spec-level call traces."""
 from vlib.unit import Unit, Fn, Decl, Raw, Lemma, Rw
-
-SPEC = r"""
-// ---- abstract token bucket (written from the property text: burst B, one token per interval I)
-pub struct LS { pub cap: nat, pub prev: int }
-spec fn credit(s: LS, t: int, I: int) -> int { s.cap * I + (t - s.prev) }
-// one call of allow() at time `now` (for `now` not earlier than the bucket's reference time)
-spec fn step(s: LS, now: int, s2: LS, res: bool, I: int) -> bool {
-    &&& (!res ==> s2 == s)                                            // (a) a refused request changes nothing
-    &&& (res && s.prev <= now ==> credit(s, now, I) >= I               // (b) a paint needs one interval of credit
-                 && credit(s2, now, I) <= credit(s, now, I) - I        //     and consumes it
-                 && s2.prev <= now)
-    &&& (s.prev <= now && now - s.prev >= I ==> res)                   // (d) one interval after the last paint => painted
-}
-// (c) "burst B": right after a paint less than B intervals of credit are left
-spec fn burst_ok(s2: LS, now: int, I: int, B: int) -> bool { credit(s2, now, I) < B * I }
-
-impl RateLimiter {
-    spec fn ls(&self) -> LS { LS { cap: self.capacity as nat, prev: self.prev.ns() as int } }
-    spec fn ival(&self) -> int { self.interval as int * 1_000_000 }
-    spec fn wf(&self) -> bool { self.interval >= 1 }
-}
-impl AtomicPosition {
-    spec fn ls(&self) -> LS { LS { cap: self.capacity@ as nat, prev: self.prev@ as int } }
-}
-spec fn rel(now: Instant, start: Instant) -> int { now.ns() - start.ns() }
-"""
-
-INSTANT_NOW = r"""
-impl Instant {
-    #[verifier::external_body]
-    pub fn now() -> (r: Instant) { unimplemented!() }
-}
-"""
+from specs import contracts as K
 
 TRACE = r"""
 // ---- call histories: ts = request times, ss = bucket states (ss[k] before call k), rs = results
@@ -229,13 +197,13 @@ UNIT = Unit(
         "instants passed to allow() are within Duration::MAX of the limiter's reference time (requires time-range)",
     ],
     items=[
-        Raw(INSTANT_NOW),
+        Raw(K.INSTANT_NOW),
         Decl("src/draw_target.rs", "const", "MAX_BURST"),
         Decl("src/draw_target.rs", "struct", "RateLimiter"),
         Decl("src/state.rs", "struct", "AtomicPosition"),
         Decl("src/state.rs", "const", "INTERVAL"),
         Decl("src/state.rs", "const", "MAX_BURST", rewrites=[Rw("R1", r"\bMAX_BURST\b", "MAX_BURST_POS")]),
-        Raw(SPEC),
+        Raw(K.LIMITER_SPEC), Raw(K.RATELIMITER_SPEC),
         Fn("src/draw_target.rs", "RateLimiter", "new", ret="r",
            requires=[("rate-nonzero", "rate >= 1")],   # documented: "Will panic if refresh_rate is 0"
            ensures=[
@@ -264,25 +232,7 @@ UNIT = Unit(
            ],
            proofs=[(r"self\.capacity = Ord::min", "before", NL_ALLOW),
                    (r"(?m)^\s*true\s*$", "before", NL_ALLOW_POST)]),
-        Fn("src/state.rs", "AtomicPosition", "allow", ret="res",
-           sig_rewrites=[Rw("R2", r"&self", "&mut self")],
-           rewrites=[Rw("R2", r"\bOrdering::", "AOrd::", count=4),
-                     Rw("R14", r"\bMAX_BURST\b", "MAX_BURST_POS", count=1)],
-           requires=[("time-range", "now.ns() - old(self).start.ns() < 0x1_0000_0000_0000_0000")],
-           ensures=[
-               ("frame", "final(self).start == old(self).start && final(self).pos@ == old(self).pos@"),
-               ("C05-step", "step(old(self).ls(), rel(now, old(self).start), final(self).ls(), res, 1_000_000)"),
-               ("C05-burst", "res ==> burst_ok(final(self).ls(), rel(now, old(self).start), 1_000_000, 10)"),
-           ],
-           proofs=[(r"capacity = Ord::min", "before", r"""
-        proof {
-            let d = diff as int;
-            assert(d == 1_000_000 * (d / 1_000_000) + d % 1_000_000) by (nonlinear_arith);
-            assert(0 <= d % 1_000_000 < 1_000_000) by (nonlinear_arith);
-            assert(d >= 1_000_000 ==> d / 1_000_000 >= 1) by (nonlinear_arith);
-            assert(d / 1_000_000 <= d) by (nonlinear_arith) requires d >= 0;
-        }
-""")]),
+        Fn(**K.POS_ALLOW),
     ] + [Raw(TRACE)] + LEMMAS,
 )
 UNIT.items  # noqa
